@@ -84,7 +84,7 @@ def one_run(ctx, bins, peer, rid, setup, conf_name, run, skip, max_servers, goma
     confp = os.path.join(d, "conf.yaml")
     open(confp, "w").write(CONFIGS[conf_name])
     evp = os.path.join(d, "events.jsonl")
-    script = {"default": "canned", "probe": True, "answer_delay_max_ms": 20, "seed": seed, "mode": "logging", "start_delay_ms": (seed * 37) % 300}
+    script = {"default": "canned", "probe": True, "answer_delay_max_ms": 20, "seed": seed, "mode": "logging", "start_delay_ms": (seed * 37) % 300, "stop_delay_ms": (seed * 53) % 400}
     if fail_key:
         script["fail_start_for"] = [fail_key]
     args = ["-v", "--conf", confp, "--mode", setup, "--max-servers", str(max_servers)]
